@@ -142,6 +142,25 @@ def run_conn(ctx, props):
                 ctx.violations.append({"what": "%s: a command stream is answered differently when cut into packets (chunk sizes below) than when sent in a single write (%d reply frames when chunked; one reply per command, in order, whatever the splitting)" % (ctx.pid, len(rframes)),
                                        "input": inp, "reply_chunked": list(real[:200]), "reply_single_write": c["reply_single"][:200]})
                 continue
+        # C15 oracle on the implementation alone: the denied counter moved by exactly the number of denial decisions this
+        # connection was sent (a 5-integer array starting with 0), whatever the model thinks the replies should have been
+        if "C15" in props and not (c.get("rst_possible") and endc != 0):
+            # replies are matched with the commands of the request stream (one reply per command, in order); only replies to
+            # THROTTLE commands are decisions (PING echoes an array argument that may look like one)
+            try:
+                cmds = parse_frames(bytes(c["stream"]))
+            except ValueError:
+                cmds = None
+            told_denied = None
+            if cmds is not None and len(cmds) >= len(rframes):
+                def is_throttle(v):
+                    return v["t"] == "arr" and v["l"] and v["l"][0]["t"] == "bulk" and bytes(v["l"][0]["s"]).upper() == b"THROTTLE"
+                told_denied = sum(1 for v, f in zip(cmds, rframes) if is_throttle(v) and f["t"] == "arr" and len(f["l"]) == 5
+                                  and all(x["t"] == "int" for x in f["l"]) and f["l"][0]["z"] == 0)
+            if told_denied is not None and c["delta"][5] != told_denied:
+                ctx.violations.append({"what": "C15: this connection was sent %d denial decisions but requests_denied moved by %d (delta [total,http,grpc,redis,allowed,denied,errors] = %s)"
+                                               % (told_denied, c["delta"][5], c["delta"]), "input": inp, "reply": list(real[:300])})
+                continue
         mframes = parse_frames(exp_bytes)
         stats["commands_replied"] += len(rframes)
         if c.get("rst_possible") and endc != 0 and len(rframes) < len(mframes):
